@@ -327,7 +327,14 @@ fn launch_rdp_thread<S: 'static + Read + Write + Send>(
     bitmap_channel: Sender<BitmapEvent>) -> RdpResult<JoinHandle<()>> {
     // Create the rdp thread
     Ok(thread::spawn(move || {
-        while wait_for_fd(handle as usize) && sync.load(Ordering::Relaxed) {
+        loop {
+            // PDUs already received inside a previous TLS record are invisible
+            // for select : read them before waiting for the socket again
+            // (the lock is released before waiting)
+            let pending = rdp_client.lock().unwrap().pending();
+            if !((pending > 0 || wait_for_fd(handle as usize)) && sync.load(Ordering::Relaxed)) {
+                break;
+            }
             let mut guard = rdp_client.lock().unwrap();
             if let Err(error) = guard.read(|event| {
                 match event {
